@@ -195,6 +195,7 @@ var seedExpectations = []seedExpect{
 	{"sroa-init-lost", "C13", "split.initkept", "sroa.decompose:LocalVariable.Init"},
 	{"dce-no-repropagation", "C13", "unmark.propagatedagain", "dce.Run:markLiveLocalStoreValues"},
 	{"hlsl-missing-binding-silent", "C17", "bindmap.missreported", "Writer.getBindTarget:FakeMissingBindings"},
+	{"swizzle-pointer-param", "C08", "forref.valueuse", "lowerMember:ExprSwizzle.Vector"},
 	{"glsl-all-entry-points", "C17", "epselect.agree", "Writer.scanTextureSamplerPairs:filter"},
 	{"unknown-name-default", "C17", "name.silentdefault", "Lowerer.addressSpace"},
 	{"mem2reg-revoke-in-walk", "C13", "commit.revoke", "walkBlock"},
